@@ -65,6 +65,20 @@ def main(argv):
         chk.extra['checker_selftest'] = {k: v for k, v in (selftest.LAST or {}).items() if k != 'results'}
         chk.extra['checker_selftest']['cases_detail'] = [
             '%s %s -> %s' % (r['kind'], r['name'], r['status']) for r in (selftest.LAST or {}).get('results', [])]
+    # a change to the code under analysis can make a rule's path enumeration explode (a device loop that used to be behind
+    # an opaque wrapper): bound memory and time, and give "no verdict" (exit 2) instead of hanging or exhausting the host
+    try:
+        import resource
+        import signal
+        lim = int(os.environ.get('GBSA_MEM_LIMIT_GB', '12')) << 30
+        resource.setrlimit(resource.RLIMIT_AS, (lim, resource.getrlimit(resource.RLIMIT_AS)[1]))      # soft limit only
+
+        def _alarm(signum, frame):
+            raise AnalysisError('analysis exceeded its time limit of %s s (path explosion?)' % os.environ.get('GBSA_TIMEOUT', '1500'))
+        signal.signal(signal.SIGALRM, _alarm)
+        signal.alarm(int(os.environ.get('GBSA_TIMEOUT', '1500')))
+    except (ImportError, ValueError, OSError):
+        pass
     try:
         rc = mod.run(ctx, chk)
         if rc == 0 and st_rc:
@@ -73,6 +87,9 @@ def main(argv):
         return rc
     except (factsmod.AnalysisError, AnalysisError) as e:
         print('ANALYSIS-ERROR property=%s %s' % (pid, str(e)[:3000]))
+        return 2
+    except MemoryError:
+        print('ANALYSIS-ERROR property=%s analysis exceeded its memory limit (path explosion?)' % pid)
         return 2
     except Exception:
         traceback.print_exc()
